@@ -41,10 +41,10 @@ func genE2E(seed int64, idx int, profile string, scale int) scen.E2E {
 	}
 	cfg.Frag = []int{0, 0, 1, 3, 7, 64, 1000, 4096}[rng.Intn(8)]
 	if rng.Intn(3) == 0 {
-		cfg.SrvBuf = []int{64, 512, 4096, 65536, 262144}[rng.Intn(5)]
+		cfg.SrvBuf = []int{64, 512, 4096, 65536, 262144, 3000, 100, 70000}[rng.Intn(8)]
 	}
 	if rng.Intn(3) == 0 {
-		cfg.CliBuf = []int{64, 512, 4096, 65536, 262144}[rng.Intn(5)]
+		cfg.CliBuf = []int{64, 512, 4096, 65536, 262144, 3000, 100, 70000}[rng.Intn(8)]
 	}
 	p.Conns = 1 + rng.Intn(4)
 	p.Callers = 1 + rng.Intn(8)
